@@ -39,6 +39,11 @@ def reader_keys(ctx: Ctx) -> set[str]:
         for k in ks or ():
             if k[0] == "k" and k[1] == "str":
                 keys.add(k[2])
+    # the refusal of any other key: 'else: assert False' is, in the normal form, the assertion 'key is one of ...'
+    for st in atoms_of(loops[0][0][3], lambda x: x[0] == "assert" and len(x) == 2):
+        for k in eq_constants(st[1], kv) or ():
+            if k[0] == "k" and k[1] == "str":
+                keys.add(k[2])
     return keys
 
 
